@@ -80,8 +80,6 @@ def run(ctx):
     explanation_configuration(ctx, 'C18.R6')
     derived_violation_flags(ctx, 'C18.R7')
     _who_builds_metadata(ctx)
-    from .c02 import union_members
-    union_members(ctx, 'C18.R9')      # overrides expand into unions: the flattening must keep each member under its own parent metadata
 
     # ---- R2 ----------------------------------------------------------------------
     ctx.rule('C18.R2', 'each hint_sane= argument of enqueue_hint_child_sane and each HintDataError(…) argument is defined '
@@ -242,6 +240,10 @@ def run(ctx):
             ctx.ob('C18.R4', f'reader:{mn}:{name}', mm.where(x), f'{mn} may read conf.{name}', ok,
                    'the violation options are read outside the reporting layer')
     ctx.floor('C18.R4', n, 6, 'reads of the violation options')
+
+    # ---- R9 (last: it interprets the union production, which a broken production may make impossible) ----------------
+    from .c02 import union_members
+    union_members(ctx, 'C18.R9')      # overrides expand into unions: the flattening must keep each member under its own parent metadata
 
 
 def _anc(node, stop):
